@@ -128,6 +128,16 @@ package broker
 //@   modifies nothing
 //@ func chan.put:Client.subscribeTokens(ch int, v int)
 //@   modifies nothing
+// stry / ptry: attempts to give a subscribe / publish token back (a
+// non-blocking send: the select it is in has a default branch)
+//@ ghost stry int
+//@ ghost ptry int
+//@ func chan.offer:Client.subscribeTokens(ch int)
+//@   ensures stry == old(stry) + 1
+//@   modifies stry
+//@ func chan.offer:Client.publishTokens(ch int)
+//@   ensures ptry == old(ptry) + 1
+//@   modifies ptry
 //@ func chan.recv:Client.publishTokens(ch int, v int)
 //@   ensures ptok == old(ptok) + 1
 //@   modifies ptok
@@ -247,7 +257,7 @@ package broker
 //@   ensures [no-direct-ack] nsent[4] == old(nsent[4]) && nsent[7] == old(nsent[7]) && nqueued == old(nqueued)
 //@   ensures [no-connack] nsent[2] == old(nsent[2]) && nsentall <= old(nsentall) + 1
 //@   ensures [incoming] old(incoming_ok()) ==> incoming_ok()
-//@   modifies saved, nsent, nsentall, sentseq, lastid, connack_sp, connack_code, nnodup, npubq, npublish, pubmsg, puback, ptok, nclose, tdying[c.tomb]
+//@   modifies saved, nsent, nsentall, sentseq, lastid, connack_sp, connack_code, nnodup, npubq, npublish, pubmsg, puback, ptok, nclose, tdying[c.tomb], ptry
 //
 //@ func (c *Client) processPubrel(id packet.ID) (err error)
 //@   requires [client] connected(c)
@@ -266,10 +276,15 @@ package broker
 
 // acker: every acknowledgement released by the backend is written; a PUBCOMP
 // only after the stored PUBLISH was released (send's precondition).
+// acker: for every SUBACK/UNSUBACK it has written it tries to give a
+// subscribe token back, for every PUBACK/PUBCOMP a publish token (C16, C20:
+// otherwise the processor runs out of tokens and later requests are never
+// answered).
 //@ func (c *Client) acker() (err error)
 //@   requires [client] connected(c)
 //@   ensures [err] err != nil
-//@   modifies saved, nsent, nsentall, sentseq, lastid, connack_sp, connack_code, nnodup, npubq, ptok, stok, nclose, tdying[c.tomb]
+//@   modifies saved, nsent, nsentall, sentseq, lastid, connack_sp, connack_code, nnodup, npubq, ptok, stok, stry, ptry, nclose, tdying[c.tomb]
+//@   loop 1 invariant [tokens-returned] stry - old(stry) == (nsent[9] - old(nsent[9])) + (nsent[11] - old(nsent[11])) && ptry - old(ptry) == (nsent[4] - old(nsent[4])) + (nsent[7] - old(nsent[7]))
 //
 // dequeuer: tokens held by this invocation are never fewer than the QoS>0
 // publishes it has sent (a token is taken per dequeue and given back in the
@@ -298,7 +313,7 @@ package broker
 //@   ensures [resend-dup] nnodup == old(nnodup)
 //@   ensures [resend-window] err == nil ==> dtok - old(dtok) <= nall && dtry - old(dtry) == nall
 //@   ensures [saved] saved == old(saved)
-//@   modifies c.id, c.state, c.session, c.will, c.MaximumKeepAlive, c.ParallelPublishes, c.ParallelSubscribes, c.InflightMessages, c.TokenTimeout, c.PacketCallback, c.Ref, c.publishTokens, c.subscribeTokens, c.dequeueTokens, c.ackQueue, any(packet.Publish.Dup), nauth, authok, nsetup, setup_resumed, nrestore, nall, nsent, nsentall, sentseq, lastid, connack_sp, connack_code, nnodup, npubq, dtok, dtry, ptok, stok, nclose, tdying[c.tomb]
+//@   modifies c.id, c.state, c.session, c.will, c.MaximumKeepAlive, c.ParallelPublishes, c.ParallelSubscribes, c.InflightMessages, c.TokenTimeout, c.PacketCallback, c.Ref, c.publishTokens, c.subscribeTokens, c.dequeueTokens, c.ackQueue, any(packet.Publish.Dup), nauth, authok, nsetup, setup_resumed, nrestore, nall, nsent, nsentall, sentseq, lastid, connack_sp, connack_code, nnodup, npubq, dtok, dtry, ptok, stok, nclose, tdying[c.tomb], stry, ptry
 //@   at call 2 send assert [connack-after-setup] nsetup == old(nsetup) + 1 && authok && c.session != nil
 //@   loop 4 invariant [resent] 0 <= rangeindex + 1 && rangeindex + 1 <= len(packets) && nall == len(packets) && nsentall == old(nsentall) + 1 + rangeindex + 1 && nnodup == old(nnodup) && nsent[2] == 1 && connack_code == 0 && (connack_sp <==> (!pkt.CleanSession && setup_resumed))
 //@   loop 4 invariant [order] forall k int {sentseq[k]} :: old(nsentall) + 1 <= k && k <= old(nsentall) + 1 + rangeindex ==> sentseq[k] == as(packets[k - old(nsentall) - 1], *packet.Publish)
@@ -318,7 +333,7 @@ package broker
 //@   ensures [one-reply] nsentall <= old(nsentall) + 1 && nsent[2] == old(nsent[2])
 //@   ensures [incoming-kept] incoming_ok()
 //@   ensures [disconnect] typecode(pkt) == 14 ==> err != nil && c.will == nil && c.state == 2
-//@   modifies c.will, c.state, saved, nsent, nsentall, sentseq, lastid, connack_sp, connack_code, nnodup, npubq, npublish, pubmsg, puback, nsubscribe, nunsubscribe, ptok, stok, dtok, nclose, tdying[c.tomb]
+//@   modifies c.will, c.state, saved, nsent, nsentall, sentseq, lastid, connack_sp, connack_code, nnodup, npubq, npublish, pubmsg, puback, nsubscribe, nunsubscribe, ptok, stok, dtok, nclose, tdying[c.tomb], stry, ptry
 //
 // processSubscribe: the SUBACK released through the backend's ack carries the
 // request's id and one return code per requested filter, in request order.
@@ -392,7 +407,7 @@ package broker
 //@   ensures [connect-first] nauth == old(nauth) ==> nsentall == old(nsentall) && nsetup == old(nsetup) && npublish == old(npublish) && nsubscribe == old(nsubscribe) && nunsubscribe == old(nunsubscribe) && saved == old(saved) && c.will == old(c.will) && c.state == old(c.state)
 //@   ensures [accept-first] nsetup == old(nsetup) ==> npublish == old(npublish) && nsubscribe == old(nsubscribe) && nunsubscribe == old(nunsubscribe) && saved == old(saved) && c.will == old(c.will) && nsentall <= old(nsentall) + 1
 //@   ensures [one-connack] nsent[2] <= 1
-//@   modifies c.id, c.state, c.session, c.will, c.MaximumKeepAlive, c.ParallelPublishes, c.ParallelSubscribes, c.InflightMessages, c.TokenTimeout, c.PacketCallback, c.Ref, c.publishTokens, c.subscribeTokens, c.dequeueTokens, c.ackQueue, any(packet.Publish.Dup), nauth, authok, nsetup, setup_resumed, nrestore, nall, saved, nsent, nsentall, sentseq, lastid, connack_sp, connack_code, nnodup, npubq, npublish, pubmsg, puback, nsubscribe, nunsubscribe, dtok, dtry, ptok, stok, nclose, tdying[c.tomb], tstarted[c.tomb]
+//@   modifies c.id, c.state, c.session, c.will, c.MaximumKeepAlive, c.ParallelPublishes, c.ParallelSubscribes, c.InflightMessages, c.TokenTimeout, c.PacketCallback, c.Ref, c.publishTokens, c.subscribeTokens, c.dequeueTokens, c.ackQueue, any(packet.Publish.Dup), nauth, authok, nsetup, setup_resumed, nrestore, nall, saved, nsent, nsentall, sentseq, lastid, connack_sp, connack_code, nnodup, npubq, npublish, pubmsg, puback, nsubscribe, nunsubscribe, dtok, dtry, ptok, stok, nclose, tdying[c.tomb], tstarted[c.tomb], stry, ptry
 //@   loop 1 invariant [serving] connected(c) && incoming_ok() && nauth == old(nauth) + 1 && nsetup == old(nsetup) + 1 && nsent[2] == 1
 //
 //@ func NewClient(backend Backend, conn transport.Conn) (c *Client)
